@@ -26,7 +26,7 @@ for pr in props:
     try: ev = json.load(open(os.path.join(ROOT, "evidence", pid + ".json")))
     except Exception: ev = None
     src = open(os.path.join(ROOT, "lean", "Rustic", "Props", pid + ".lean")).read() if os.path.exists(os.path.join(ROOT, "lean", "Rustic", "Props", pid + ".lean")) else ""
-    partial = re.findall(r"^theorem\s+(\S*_partial\S*)", src, re.M)
+    partial = re.findall(r"^theorem\s+(\S+_partial)(?![A-Za-z0-9_'])", src, re.M)
     nopen = sum(1 for k in kf if k["property"] == pid and k["status"] == "open")
     seeds = []
     for d in sorted(glob.glob(os.path.join(ROOT, "seeded", pid + "-*", "meta.json"))):
